@@ -121,7 +121,8 @@ def main(tier):
     res = Result('C07', 'translation_validation')
     res.engines = ['J (symbolic execution of the emitted JavaScript + z3)', 'K (Kani: traversal completeness, shared with C05)']
     progs = programs(tier)
-    groups = [{'files': [['a', p['wxml']], ['b', '<view/>']], 'main': 'a'} for p in progs]
+    # the included file reads the fields x and y of the includer's data (it is instantiated with the includer's D)
+    groups = [{'files': [['a', p['wxml']], ['b', INCLUDED]], 'main': 'a'} for p in progs]
     comp = driver.compile_groups(groups, want=('gen_object', 'runtime', 'gen_groups'))
     nobl = 0
     bad = []
@@ -160,6 +161,10 @@ def main(tier):
     res.assumptions = ['a field read in a position the map cannot reach must not be advertised; not advertising is always allowed']
     res.outside = ['tmpl/index.ts choosing between map and tree update']
     return res.finish()
+
+
+INCLUDED = '<view inc9="{{ x }}" inc8="{{ y.k }}"/>'
+INCLUDED_READS = {'x': 'inc9', 'y': 'inc8'}
 
 
 def check_program(p, cmp_, res):
@@ -218,6 +223,12 @@ def check_program(p, cmp_, res):
                 updated.append((node, setter, args[0] if args and setter in ('r', 'd', 'm', 'v', 'p') else None))
                 ok, desc = same_as_creation(rt, root, node, setter, args, text, res)
                 out.append(('updater-value', 'updater registered under %r: %s' % (f, desc), ok))
+        # content of an included file is rendered with the includer's data: if f is advertised and the included file reads f, some updater
+        # of f has to refresh that node as well (the compiler does not see the included file: it must not advertise at all)
+        if '<include' in p['wxml'] and f in INCLUDED_READS:
+            hit = [u for u in updated if u[1] == 'r' and is_name(u[2], INCLUDED_READS[f])]
+            out.append(('missing-updater-included', 'field %r is advertised by a file with <include>; the included file reads it (%s="{{ ... }}") but no updater of A[%r] refreshes that node'
+                        % (f, INCLUDED_READS[f], f), bool(hit)))
         # every plain site that reads f must be updated by one of f's updaters
         for s in occ.get(f, []):
             if s['ctx'] not in ('plain', 'comp-child', 'slotted'):
